@@ -1380,8 +1380,15 @@ func unifyConstraints(recreated, original map[string]string) (map[string]string,
 			if !strings.HasPrefix(l, "index <unique-constraint> ") {
 				continue
 			}
+			// The counterpart is a plain unique index over the same columns that the original does not
+			// have under that name (an explicit unique index over the same columns keeps its own name
+			// on both sides and is not the constraint's counterpart).
+			named := map[string]bool{}
+			for _, x := range ol {
+				named[x] = true
+			}
 			for j, m := range rl {
-				if strings.HasPrefix(m, "index ") && !strings.HasPrefix(m, "index <unique") && strings.Contains(m, " unique=1 ") && strings.HasSuffix(m, " where=") && parts(m) == parts(l) {
+				if strings.HasPrefix(m, "index ") && !strings.HasPrefix(m, "index <unique") && strings.Contains(m, " unique=1 ") && strings.HasSuffix(m, " where=") && parts(m) == parts(l) && !named[m] {
 					ol[i] = "index <unique> unique=1" + parts(l)
 					rl[j] = ol[i]
 					break
